@@ -103,31 +103,30 @@ HandlerPhase(st, p) ==
       i       == Count(st.S.at) + 1
       openid  == "openid" \in p.grant
       codeRow == [client |-> p.client, rid |-> rid, req |-> p.req, scopes |-> p.grant, aud |-> p.aud,
-                  redir |-> p.redirSent, exp |-> st.now + st.cfg.l_code, active |-> TRUE, openid |-> openid]
+                  redir |-> p.redirSent, exp |-> st.now + st.cfg.l_code, active |-> TRUE, openid |-> openid, dl |-> TRUE]
       atRow   == [rid |-> rid, client |-> p.client, scopes |-> p.grant, aud |-> p.aud, sub |-> Subject,
-                  exp |-> st.now + st.cfg.l_at, via |-> "authz", present |-> TRUE, why |-> "", ep |-> st.nep + 1]
+                  exp |-> st.now + st.cfg.l_at, via |-> "authz", present |-> TRUE, why |-> "", ep |-> st.nep + 1, dl |-> TRUE]
       wantIdt == openid /\ HasIdt(p.rtype)
-      \* rows written before a later handler refuses stay behind as orphans
-      Orphan(s, nc, na, no) == [s EXCEPT !.S.orph.code = @ + nc, !.S.orph.at = @ + na, !.S.orph.oidc = @ + no]
+      \* rows written before a later handler refuses stay behind (nobody holds the credential)
+      SCode   == CreateAuthorizeCodeSession(st1.S, k, codeRow)
+      SOidc   == IF openid THEN CreateOpenIDConnectSession(SCode, k) ELSE SCode
+      STok    == IF HasTok(p.rtype) THEN CreateAccessTokenSession(SOidc, i, atRow) ELSE SOidc
+      Undelivered(S) == [S EXCEPT !.code = [x \in DOMAIN S.code |-> IF x = k THEN [S.code[x] EXCEPT !.dl = FALSE] ELSE S.code[x]],
+                                  !.at = [x \in DOMAIN S.at |-> IF x = i THEN [S.at[x] EXCEPT !.dl = FALSE] ELSE S.at[x]]]
       pk      == PkceAuthzErr(st, p)
   IN
   IF p.rtype = "code" THEN
-       IF pk # "ok" THEN Fail(Orphan(st1, 1, 0, IF openid THEN 1 ELSE 0), "invalid_request", pk)
-       ELSE LET S1 == CreateAuthorizeCodeSession(st1.S, k, codeRow)
-                S2 == IF openid THEN CreateOpenIDConnectSession(S1, k) ELSE S1
-                S3 == IF p.pkce # "none" THEN CreatePKCERequestSession(S2, k, p.pkce) ELSE S2
+       IF pk # "ok" THEN Fail([st1 EXCEPT !.S = Undelivered(SOidc)], "invalid_request", pk)
+       ELSE LET S3 == IF p.pkce # "none" THEN CreatePKCERequestSession(SOidc, k, p.pkce) ELSE SOidc
             IN Ret([st1 EXCEPT !.S = S3], [Out0 EXCEPT !.code = k])
   ELSE IF Hybrid(p.rtype) THEN
        IF ~p.redirSent THEN Fail(st1, "invalid_request", "oidc_redirect_required")
        ELSE IF "authorization_code" \notin reg.grants THEN Fail(st1, "invalid_grant", "grant_type_not_allowed")
        ELSE IF HasTok(p.rtype) /\ "implicit" \notin reg.grants
-            THEN Fail(Orphan(st1, 1, 0, IF openid THEN 1 ELSE 0), "invalid_grant", "grant_type_not_allowed")
+            THEN Fail([st1 EXCEPT !.S = Undelivered(SOidc)], "invalid_grant", "grant_type_not_allowed")
        ELSE IF pk # "ok"
-            THEN Fail(Orphan(st1, 1, IF HasTok(p.rtype) THEN 1 ELSE 0, IF openid THEN 1 ELSE 0), "invalid_request", pk)
-       ELSE LET S1 == CreateAuthorizeCodeSession(st1.S, k, codeRow)
-                S2 == IF openid THEN CreateOpenIDConnectSession(S1, k) ELSE S1
-                S3 == IF HasTok(p.rtype) THEN CreateAccessTokenSession(S2, i, atRow) ELSE S2
-                S4 == IF p.pkce # "none" THEN CreatePKCERequestSession(S3, k, p.pkce) ELSE S3
+            THEN Fail([st1 EXCEPT !.S = Undelivered(STok)], "invalid_request", pk)
+       ELSE LET S4 == IF p.pkce # "none" THEN CreatePKCERequestSession(STok, k, p.pkce) ELSE STok
             IN Ret([st1 EXCEPT !.S = S4],
                    [Out0 EXCEPT !.code = k, !.at = IF HasTok(p.rtype) THEN i ELSE 0,
                                 !.expin = IF HasTok(p.rtype) THEN st.cfg.l_at ELSE -1, !.idt = wantIdt])
@@ -184,10 +183,10 @@ NewPair(st, rid, client, req, scopes, aud, sub, withRT, grantLRT) ==
   LET i == Count(st.S.at) + 1
       j == Count(st.S.rt) + 1
       atRow == [rid |-> rid, client |-> client, scopes |-> scopes, aud |-> aud, sub |-> sub,
-                exp |-> st.now + st.cfg.l_at, via |-> "token", present |-> TRUE, why |-> "", ep |-> st.nep + 1]
+                exp |-> st.now + st.cfg.l_at, via |-> "token", present |-> TRUE, why |-> "", ep |-> st.nep + 1, dl |-> TRUE]
       rtRow == [rid |-> rid, client |-> client, req |-> req, scopes |-> scopes, aud |-> aud, sub |-> sub,
                 exp |-> IF st.cfg.l_rt < 0 THEN -1 ELSE st.now + st.cfg.l_rt,
-                active |-> TRUE, present |-> TRUE, why |-> "", ep |-> st.nep + 1]
+                active |-> TRUE, present |-> TRUE, why |-> "", ep |-> st.nep + 1, dl |-> TRUE]
       S1 == CreateAccessTokenSession(st.S, i, atRow)
       S2 == IF withRT THEN CreateRefreshTokenSession(S1, j, rtRow) ELSE S1
   IN [S |-> S2, at |-> i, rt |-> IF withRT THEN j ELSE 0]
@@ -198,7 +197,7 @@ DoRedeem(st, op) ==
   IN
   IF ae # "ok" THEN Fail(st, ae, AuthReason(op))
   ELSE IF "authorization_code" \notin st.reg[op.client].grants THEN Fail(st, "unauthorized_client", "grant_type_not_allowed")
-  ELSE LET g == GetAuthorizeCodeSession(st.S, k) IN
+  ELSE LET g == IF Has(st.S.code, k) /\ ~st.S.code[k].dl THEN "not_found" ELSE GetAuthorizeCodeSession(st.S, k) IN
   IF g = "not_found" THEN Fail(st, "invalid_grant", "code_unknown")
   ELSE LET row == st.S.code[k] IN
   IF g = "invalidated"
@@ -229,7 +228,7 @@ DoRefresh(st, op) ==
   IN
   IF ae # "ok" THEN Fail(st, ae, AuthReason(op))
   ELSE IF "refresh_token" \notin st.reg[op.client].grants THEN Fail(st, "unauthorized_client", "grant_type_not_allowed")
-  ELSE LET g == GetRefreshTokenSession(st.S, j) IN
+  ELSE LET g == IF Has(st.S.rt, j) /\ ~st.S.rt[j].dl THEN "not_found" ELSE GetRefreshTokenSession(st.S, j) IN
   IF g = "not_found" THEN Fail(st, "invalid_grant", "rt_unknown")
   ELSE LET row == st.S.rt[j] IN
   IF g = "inactive"
@@ -267,7 +266,7 @@ DoClientCreds(st, op) ==
   ELSE Ret([st EXCEPT !.nrid = rid, !.nep = @ + 1,
                       !.S = CreateAccessTokenSession(st.S, i,
                               [rid |-> rid, client |-> op.client, scopes |-> req, aud |-> aud, sub |-> Subject,
-                               exp |-> st.now + st.cfg.l_at, via |-> "token", present |-> TRUE, why |-> "", ep |-> st.nep + 1])],
+                               exp |-> st.now + st.cfg.l_at, via |-> "token", present |-> TRUE, why |-> "", ep |-> st.nep + 1, dl |-> TRUE])],
            [Out0 EXCEPT !.at = i, !.expin = st.cfg.l_at])
 
 DoPassword(st, op) ==
@@ -293,8 +292,8 @@ DoPassword(st, op) ==
 DoRevoke(st, op) ==
   LET ae == AuthErr(op)
       \* token discovery: the hint only orders the two lookups
-      isRT == op.kind = "rt" /\ Has(st.S.rt, op.tok) /\ st.S.rt[op.tok].present
-      isAT == op.kind = "at" /\ Has(st.S.at, op.tok) /\ st.S.at[op.tok].present
+      isRT == op.kind = "rt" /\ Has(st.S.rt, op.tok) /\ st.S.rt[op.tok].present /\ st.S.rt[op.tok].dl
+      isAT == op.kind = "at" /\ Has(st.S.at, op.tok) /\ st.S.at[op.tok].present /\ st.S.at[op.tok].dl
   IN
   IF ae # "ok" THEN Fail(st, ae, AuthReason(op))
   ELSE IF isRT /\ ~st.S.rt[op.tok].active THEN Fail(st, "ok", "revoke_already_inactive")   \* ErrInactiveToken => success
@@ -312,8 +311,8 @@ DoRevoke(st, op) ==
 (* ======================================================================== *)
 Covers(granted, need) == need \subseteq granted     \* exact strategy on the stateful alphabet
 IntrospectVerdict(st, kind, tok, need) ==            \* hint never changes the verdict
-  IF kind = "at" THEN (IF ATActive(st, tok) /\ Covers(st.S.at[tok].scopes, need) THEN "active" ELSE "inactive")
-  ELSE IF kind = "rt" THEN (IF ~st.cfg.no_rt_intro /\ RTActive(st, tok) /\ Covers(st.S.rt[tok].scopes, need) THEN "active" ELSE "inactive")
+  IF kind = "at" THEN (IF ATActive(st, tok) /\ st.S.at[tok].dl /\ Covers(st.S.at[tok].scopes, need) THEN "active" ELSE "inactive")
+  ELSE IF kind = "rt" THEN (IF ~st.cfg.no_rt_intro /\ RTActive(st, tok) /\ st.S.rt[tok].dl /\ Covers(st.S.rt[tok].scopes, need) THEN "active" ELSE "inactive")
   ELSE "inactive"
 DoIntrospect(st, op) ==
   LET callerOK ==
@@ -343,7 +342,7 @@ DoDevStart(st, op) ==
                       !.S = CreateDeviceAuthSession(st.S, d,
                               [client |-> op.client, rid |-> rid, req |-> req, scopes |-> Range(op.grant) \cap req,
                                aud |-> aud, exp |-> st.now + st.cfg.l_dev, ustate |-> "unused",
-                               present |-> TRUE, inval |-> FALSE])],
+                               present |-> TRUE, inval |-> FALSE, dl |-> TRUE])],
            [Out0 EXCEPT !.dev = d, !.expin = st.cfg.l_dev])
 
 DoDevDecide(st, op) ==
@@ -393,7 +392,7 @@ DoPush(st, op) ==
   ELSE IF e[1] # "ok" THEN Fail(st, e[1], e[2])
   ELSE Ret([st EXCEPT !.S = CreatePARSession(st.S, u,
                  [client |-> op.client, exp |-> st.now + st.cfg.l_par, present |-> TRUE, rtype |-> op.rtype,
-                  req |-> req, aud |-> aud, redirSent |-> op.redir = "sent"])],
+                  req |-> req, aud |-> aud, redirSent |-> op.redir = "sent", dl |-> TRUE])],
            [Out0 EXCEPT !.par = u, !.expin = st.cfg.l_par])
 
 DoUsePar(st, op) ==
@@ -448,10 +447,10 @@ Apply(st, op) ==
 (* Observations: introspection probe and store projection                   *)
 (* ======================================================================== *)
 ProbeAT(st) == { [id |-> i, client |-> st.S.at[i].client, sub |-> st.S.at[i].sub, scopes |-> st.S.at[i].scopes,
-                  aud |-> st.S.at[i].aud, exp |-> st.S.at[i].exp] : i \in {x \in DOMAIN st.S.at : ATActive(st, x)} }
+                  aud |-> st.S.at[i].aud, exp |-> st.S.at[i].exp] : i \in {x \in DOMAIN st.S.at : ATActive(st, x) /\ st.S.at[x].dl} }
 ProbeRT(st) == IF st.cfg.no_rt_intro THEN {} ELSE
                { [id |-> j, client |-> st.S.rt[j].client, sub |-> st.S.rt[j].sub, scopes |-> st.S.rt[j].scopes,
-                  aud |-> st.S.rt[j].aud, exp |-> 0] : j \in {x \in DOMAIN st.S.rt : RTActive(st, x)} }
+                  aud |-> st.S.rt[j].aud, exp |-> 0] : j \in {x \in DOMAIN st.S.rt : RTActive(st, x) /\ st.S.rt[x].dl} }
 
 Projection(st) ==
   LET S == st.S IN
@@ -464,11 +463,11 @@ Projection(st) ==
     oidc          |-> S.oidc,
     dev           |-> {d \in DOMAIN S.dev : S.dev[d].present},
     par           |-> {u \in DOMAIN S.par : S.par[u].present},
-    n_at          |-> Cardinality({i \in DOMAIN S.at : S.at[i].present}) + S.orph.at,
+    n_at          |-> Cardinality({i \in DOMAIN S.at : S.at[i].present}),
     n_rt          |-> Cardinality({j \in DOMAIN S.rt : S.rt[j].present}),
-    n_code        |-> Count(S.code) + S.orph.code,
-    n_pkce        |-> Cardinality({k \in DOMAIN S.pkce : S.pkce[k].present}) + S.orph.pkce,
-    n_oidc        |-> Cardinality(S.oidc) + Cardinality(S.doidc) + S.orph.oidc,
+    n_code        |-> Count(S.code),
+    n_pkce        |-> Cardinality({k \in DOMAIN S.pkce : S.pkce[k].present}),
+    n_oidc        |-> Cardinality(S.oidc) + Cardinality(S.doidc),
     n_par         |-> Cardinality({u \in DOMAIN S.par : S.par[u].present}) ]
 
 (* ======================================================================== *)
@@ -490,7 +489,7 @@ StepCodeOnce(st, op, r) ==
   op.op = "redeem" /\ r.out.res = "ok" => /\ Has(st.S.code, op.code) /\ st.S.code[op.code].active
                                           /\ ~r.st.S.code[op.code].active
 StepReplayRefused(st, op, r) ==
-  (op.op = "redeem" /\ Has(st.S.code, op.code) /\ ~st.S.code[op.code].active)
+  (op.op = "redeem" /\ Has(st.S.code, op.code) /\ ~st.S.code[op.code].active /\ st.S.code[op.code].dl)
      => /\ r.out.res # "ok" /\ r.out.at = 0 /\ r.out.rt = 0
         /\ (AuthErr(op) = "ok" /\ "authorization_code" \in st.reg[op.client].grants => r.out.res = "invalid_grant")
 
@@ -526,7 +525,7 @@ ReuseKillsFamily(st) ==
      /\ \A j \in FamilyRT(st, rid) : ~RTActive(st, j)
 StepReuseRefused(st, op, r) ==
   (op.op = "refresh" /\ AuthErr(op) = "ok" /\ "refresh_token" \in st.reg[op.client].grants
-     /\ Has(st.S.rt, op.tok) /\ st.S.rt[op.tok].present /\ ~st.S.rt[op.tok].active)
+     /\ Has(st.S.rt, op.tok) /\ st.S.rt[op.tok].present /\ ~st.S.rt[op.tok].active /\ st.S.rt[op.tok].dl)
      => r.out.res = "invalid_grant" /\ st.S.rt[op.tok].rid \in r.st.reused
 Touched(st, op) ==      \* request ids (grants) an operation may legitimately affect
   CASE op.op = "redeem" /\ Has(st.S.code, op.code) -> {st.S.code[op.code].rid}
@@ -570,8 +569,8 @@ RevokeEffective(st) ==
   \A t \in st.revoked : IF t[1] = "at" THEN ~ATActive(st, t[2]) ELSE ~RTActive(st, t[2])
 StepRevokeOwnerOnly(st, op, r) ==
   op.op = "revoke" =>
-     LET known == (op.kind = "rt" /\ Has(st.S.rt, op.tok) /\ st.S.rt[op.tok].present /\ st.S.rt[op.tok].active)
-                  \/ (op.kind = "at" /\ Has(st.S.at, op.tok) /\ st.S.at[op.tok].present)
+     LET known == (op.kind = "rt" /\ Has(st.S.rt, op.tok) /\ st.S.rt[op.tok].present /\ st.S.rt[op.tok].active /\ st.S.rt[op.tok].dl)
+                  \/ (op.kind = "at" /\ Has(st.S.at, op.tok) /\ st.S.at[op.tok].present /\ st.S.at[op.tok].dl)
          owner == IF op.kind = "rt" THEN st.S.rt[op.tok].client ELSE st.S.at[op.tok].client
      IN /\ (AuthErr(op) # "ok" => r.st.S = st.S /\ r.out.res # "ok")
         /\ (AuthErr(op) = "ok" /\ known /\ owner # op.client => r.st.S = st.S /\ r.out.res = "unauthorized_client")
